@@ -100,6 +100,14 @@ theorem C02_no_raw_control (s : Bytes) (hs : ∀ x ∈ s, x < 256) : ∀ x ∈ w
 theorem C02_string_exact (s rest : Bytes) (hv : valid s = true) :
     readText (writeText s ++ rest) = some (s, rest) := C06_read_write s rest hv
 
+/-- the escaper the theorems above speak of is the source's: its two tables, its `switch`, its digit string and
+its only configuration (`escapeHTML = false` at every call), regenerated from natural_language_values.go -/
+theorem C02_escape_tables :
+    (∀ b, b < 128 → safe b = (APModel.Generated.htmlSafeTable.getD b false || APModel.Generated.safeSetTable.getD b false)) ∧
+    (∀ b, b < 128 → escBySwitch APModel.Generated.escSwitch APModel.Generated.hexDigits b = some (escAscii b)) ∧
+    APModel.Generated.stringBytesCalls.all (fun c => c.2 == "false") = true :=
+  ⟨C06_safe_table.2.2.2, C06_switch_table, C06_callers.1⟩
+
 /-- the injection attempt of the property text: an id holding  ","type":"Delete  is written with its
 quotes escaped and reads back whole -/
 example : readText (writeText [34, 44, 34, 116, 121, 112, 101, 34, 58, 34, 68, 101, 108, 101, 116, 101] ++ [34, 125]) =
